@@ -167,6 +167,10 @@ int vorbis_synthesis_halfrate(vorbis_info *vi,int flag){
   /* set / clear half-sample-rate mode */
   codec_setup_info     *ci=vi->codec_setup;
 
+  /* a cleared info (e.g. vorbisfile's, after a link whose headers could
+     not be read) has no setup to flag */
+  if(ci==NULL)return -1;
+
   /* right now, our MDCT can't handle < 64 sample windows. */
   if(ci->blocksizes[0]<=64 && flag)return -1;
   ci->halfrate_flag=(flag?1:0);
@@ -175,5 +179,6 @@ int vorbis_synthesis_halfrate(vorbis_info *vi,int flag){
 
 int vorbis_synthesis_halfrate_p(vorbis_info *vi){
   codec_setup_info     *ci=vi->codec_setup;
+  if(ci==NULL)return 0;
   return ci->halfrate_flag;
 }
